@@ -1,6 +1,9 @@
 package drv
 
 import (
+	"sync"
+	"sync/atomic"
+
 	"github.com/rulego/streamsql"
 	"github.com/rulego/streamsql/condition"
 )
@@ -12,6 +15,8 @@ type CondScenario struct {
 	Flat    string           `json:"flat"`    // shortcut-eligible text (expr-lang form: && || ==)
 	General string           `json:"general"` // parenthesised equivalent the shape recogniser rejects
 	SQL     string           `json:"sql"`     // optional: SELECT ... WHERE <flat in SQL form>, decided through EmitSync
+	Alt     []string         `json:"alt"`     // other spellings of the same predicate (e.g. literal OP column): must decide like the general engine
+	Conc    int              `json:"conc"`    // > 0: afterwards this many goroutines evaluate both compiled predicates on all rows at the same time
 	Rows    []map[string]any `json:"rows"`
 }
 
@@ -43,6 +48,13 @@ func RunCond(sc CondScenario) []Ev {
 			defer s.Stop()
 		}
 	}
+	alt := make([]condition.Condition, len(sc.Alt))
+	for i, a := range sc.Alt {
+		if c, err := condition.NewExprCondition(a); err == nil {
+			alt[i] = c
+		}
+	}
+	var seqGen, seqFast []int
 	for i, r := range sc.Rows {
 		row := decodeRow(r)
 		e := Ev{"tr": sc.Tr, "e": "dec", "i": i + 1, "cf": b2i(ferr != nil), "cg": b2i(gerr != nil), "fast": 0, "gen": 0, "pf": 0, "pg": 0, "q": -1}
@@ -62,7 +74,56 @@ func RunCond(sc CondScenario) []Ev {
 				e["q"] = b2i(res != nil)
 			}
 		}
+		alts := []int{}
+		for _, a := range alt {
+			if a == nil {
+				alts = append(alts, -1)
+				continue
+			}
+			b, p := evalCond(a, row)
+			if p == 1 {
+				alts = append(alts, 2)
+			} else {
+				alts = append(alts, b2i(b))
+			}
+		}
+		e["alt"] = alts
+		seqGen = append(seqGen, e["gen"].(int))
+		seqFast = append(seqFast, e["fast"].(int))
 		evs = append(evs, e)
+	}
+	if sc.Conc > 0 && ferr == nil && gerr == nil {
+		// the same compiled predicates evaluated by several goroutines at once: every decision equals the sequential one
+		var bad, pans int64
+		var wg sync.WaitGroup
+		rows := make([]map[string]any, len(sc.Rows))
+		for i, r := range sc.Rows {
+			rows[i] = decodeRow(r)
+		}
+		for g := 0; g < sc.Conc; g++ {
+			wg.Add(1)
+			go func() {
+				defer wg.Done()
+				for rep := 0; rep < 200; rep++ {
+					for i, row := range rows {
+						b, p := evalCond(gc, row)
+						if p == 1 {
+							atomic.AddInt64(&pans, 1)
+						} else if b2i(b) != seqGen[i] {
+							atomic.AddInt64(&bad, 1)
+						}
+						b, p = evalCond(fc, row)
+						if p == 1 {
+							atomic.AddInt64(&pans, 1)
+						} else if b2i(b) != seqFast[i] {
+							atomic.AddInt64(&bad, 1)
+						}
+					}
+				}
+			}()
+		}
+		wg.Wait()
+		evs = append(evs, Ev{"tr": sc.Tr, "e": "conc", "bad": bad, "panics": pans})
 	}
 	return evs
 }
